@@ -105,8 +105,88 @@ Proof.
 Qed.
 End All.
 
+(* ---- unconditional half: 4 (components - holes) <= 4 W for every image ---- *)
+Section AllLe.
+Variable l : Z.
+Hypothesis l_nz : l <> 0.
+
+Definition fg_count_le (im : image) : nat :=
+  length (filter (fun p => inS im l (fst p) (snd p)) (positions (img_h im) (img_w im))).
+
+Lemma X_nb_le im y x : X_of im l (nb (y, x) 0) = inS im l (y - 1) (x - 1) /\ X_of im l (nb (y, x) 1) = inS im l (y - 1) x /\
+  X_of im l (nb (y, x) 2) = inS im l (y - 1) (x + 1) /\ X_of im l (nb (y, x) 3) = inS im l y (x - 1).
+Proof.
+  unfold X_of, nb, off. cbn [fst snd Nat.div Nat.modulo Nat.divmod Z.of_nat Z.sub Z.add Z.opp Z.pos_sub Pos.of_succ_nat Pos.succ].
+  repeat split; f_equal; lia.
+Qed.
+
+Theorem euler_lower_bound_by_raster : forall n im, rect im -> (fg_count_le im <= n)%nat -> 4 * euler_spec im l <= euler4 im l.
+Proof.
+  induction n as [|n IH]; intros im R FC.
+  - (* no pixel of the label *)
+    assert (E : forall y x, get2 im y x <> l).
+    { intros y x G. destruct (get2_inside im y x R ltac:(lia)) as [Hy Hx].
+      assert (Hin : In (y, x) (filter (fun p => inS im l (fst p) (snd p)) (positions (img_h im) (img_w im)))).
+      { apply filter_In. split; [apply positions_in; lia|]. cbn [fst snd]. unfold inS. rewrite G. apply Z.eqb_refl. }
+      unfold fg_count_le in FC. destruct (filter _ _); [destruct Hin|cbn [length] in FC; lia]. }
+    destruct (euler_is_components_minus_holes_reducible l l_nz im 0 (r2_empty l im E) R) as [Q _]. lia.
+  - set (ps := positions (img_h im) (img_w im)).
+    destruct (existsb (fun p => inS im l (fst p) (snd p)) ps) eqn:EX.
+    + apply existsb_exists in EX. destruct EX as [x0 [Hx0 Vx0]].
+      destruct (last_exists (X_of im l) ps (ex_intro _ x0 (conj Hx0 Vx0))) as [[y x] [Ip [Vp Mp]]].
+      assert (P : get2 im y x = l) by (unfold X_of, inS in Vp; cbn [fst snd] in Vp; apply Z.eqb_eq; exact Vp).
+      assert (INS : forall q, X_of im l q = true -> In q ps).
+      { intros [qy qx] Hq. unfold X_of, inS in Hq. cbn [fst snd] in Hq. apply Z.eqb_eq in Hq. apply positions_in.
+        apply (get2_inside im qy qx R). lia. }
+      assert (LastY : forall q, X_of im l q = true -> ~ ltr (y, x) q) by (intros q Hq; apply Mp; [apply INS; exact Hq|exact Hq]).
+      assert (LP : last_px im l y x).
+      { split; [exact P|]. intros y' x' G. apply LastY. unfold X_of, inS. cbn [fst snd]. rewrite G. apply Z.eqb_refl. }
+      set (im' := remove_px im y x).
+      assert (R' : rect im') by (apply set_px_rect; exact R).
+      assert (EXT : forall q, Topo.remove (X_of im l) (y, x) q = X_of im' l q) by (intros q; symmetry; apply X_of_remove; assumption).
+      (* one pixel less *)
+      assert (FC' : (fg_count_le im' <= n)%nat).
+      { unfold fg_count_le in *. unfold im', remove_px. rewrite set_px_h, set_px_w. fold (remove_px im y x). fold im'.
+        assert (LT : (length (filter (fun p => inS im' l (fst p) (snd p)) ps) < length (filter (fun p => inS im l (fst p) (snd p)) ps))%nat).
+        { apply (filter_length_lt _ _ _ (y, x)).
+          - intros [qy qx]. cbn [fst snd]. unfold im'. rewrite (inS_removed im l y x l_nz P).
+            destruct ((qy =? y) && (qx =? x)); [discriminate|tauto].
+          - exact Ip.
+          - exact Vp.
+          - cbn [fst snd]. unfold im'. rewrite (inS_removed im l y x l_nz P). rewrite !Z.eqb_refl. reflexivity. }
+        unfold ps in *. lia. }
+      pose proof (IH im' R' FC') as E'.
+      destruct (plane_reps_exist im l R l_nz) as [fgl [bgl [CF [CB ES]]]].
+      destruct (plane_reps_exist im' l R' l_nz) as [fgl' [bgl' [CF' [CB' ES']]]].
+      assert (CFr : comp_reps Topo.adj8 (fg (Topo.remove (X_of im l) (y, x))) fgl')
+        by (apply (comp_reps_ext _ (fg (X_of im' l))); [intros q; split; intros Hq; [apply (proj2 (fg_ext _ _ EXT q))|apply (proj1 (fg_ext _ _ EXT q))]; exact Hq|exact CF']).
+      assert (CBr : comp_reps Topo.adj4 (bg (Topo.remove (X_of im l) (y, x))) bgl')
+        by (apply (comp_reps_ext _ (bg (X_of im' l))); [intros q; split; intros Hq; [apply (proj2 (bg_ext _ _ EXT q))|apply (proj1 (bg_ext _ _ EXT q))]; exact Hq|exact CB']).
+      assert (DEC : forall a b, path Topo.adj8 (fg (Topo.remove (X_of im l) (y, x))) a b \/
+                                ~ path Topo.adj8 (fg (Topo.remove (X_of im l) (y, x))) a b).
+      { intros a b. destruct (conn8_dec im' l R' l_nz a b) as [C|C]; [left|right].
+        - eapply path_mono; [|exact C]. intros q Hq. apply (proj2 (fg_ext _ _ EXT q)). exact Hq.
+        - intros Q. apply C. eapply path_mono; [|exact Q]. intros q Hq. apply (proj1 (fg_ext _ _ EXT q)). exact Hq. }
+      pose proof (last_step_le (X_of im l) (y, x) Vp LastY DEC fgl bgl fgl' bgl' CF CB CFr CBr) as TS.
+      destruct (X_nb_le im y x) as [N0 [N1 [N2 N3]]]. rewrite N0, N1, N2, N3 in TS.
+      rewrite (euler_delete_last_pixel im l y x R l_nz LP). fold im'. rewrite ES. rewrite ES' in E'. lia.
+    + (* no pixel of the label at all *)
+      assert (E : forall y x, get2 im y x <> l).
+      { intros y x G. destruct (get2_inside im y x R ltac:(lia)) as [Hy Hx].
+        assert (T : existsb (fun p => inS im l (fst p) (snd p)) ps = true).
+        { apply existsb_exists. exists (y, x). split; [apply positions_in; lia|]. cbn [fst snd]. unfold inS. rewrite G. apply Z.eqb_refl. }
+        congruence. }
+      destruct (euler_is_components_minus_holes_reducible l l_nz im 0 (r2_empty l im E) R) as [Q _]. lia.
+Qed.
+End AllLe.
+
+
 (* the unrestricted statement, for every rectangular label image and every label, given the one
    missing implication *)
 Theorem euler_is_components_minus_holes_all : bridge_keeps_background ->
   forall (im : image) (l : Z), rect im -> l <> 0 -> euler4 im l = 4 * euler_spec im l.
 Proof. intros JH im l R Hl. exact (euler_all_images_by_raster l Hl JH (fg_count l im) im R (le_n _)). Qed.
+
+(* unconditional: the quad-count Euler number is never below components - holes *)
+Theorem euler_lower_bound (im : image) (l : Z) : rect im -> l <> 0 -> 4 * euler_spec im l <= euler4 im l.
+Proof. intros R Hl. exact (euler_lower_bound_by_raster l Hl (fg_count_le l im) im R (le_n _)). Qed.
